@@ -5,7 +5,7 @@ EXTENDS Judge
 Clauses(r) ==
   << <<"writer-died-at-the-chosen-point", r.writer_rc = (IF r.crash_at < r.ncalls THEN 99 ELSE 0)>>,
      <<"partial-file-never-loads-as-a-different-collection", r.outcome # "loaded-different">>,
-     <<"interrupted-write-is-refused", r.crash_at < r.ncalls => r.outcome \in {"error", "no-file"}>>,
+     <<"interrupted-write-is-refused", r.crash_at < r.ncalls => r.outcome \in {"error", "no-file", "loaded-rival-complete"}>>,      \* a rival writer's COMPLETE file is nobody's partial write
      <<"completed-write-loads-equal", r.crash_at >= r.ncalls => r.outcome = "loaded-equal">> >>
 
 ASSUME PrintT(ToJson(Verdict(Recs, Clauses)))
